@@ -231,3 +231,175 @@ except Exception:""")], 'detect'),
         return ret""")], 'detect'),
     'per-call-lock': ([(CU, "    def __setitem__(self, key, value):\n        with self._lock:", "    def __setitem__(self, key, value):\n        with RLock():")], 'detect'),
 }
+
+FU = 'boltons/fileutils.py'
+_EXIT_HEAD = """        if self.part_file:
+            # Ensure data is flushed and synced to disk before closing
+            self.part_file.flush()
+            os.fsync(self.part_file.fileno())
+            self.part_file.close()
+"""
+MUTANTS['C04'] = {
+    'drop-fsync': ([(FU, _EXIT_HEAD, """        if self.part_file:
+            self.part_file.flush()
+            self.part_file.close()
+""")], 'detect'),
+    'drop-flush': ([(FU, _EXIT_HEAD, """        if self.part_file:
+            os.fsync(self.part_file.fileno())
+            self.part_file.close()
+""")], 'detect'),
+    'fsync-before-flush': ([(FU, _EXIT_HEAD, """        if self.part_file:
+            os.fsync(self.part_file.fileno())
+            self.part_file.flush()
+            self.part_file.close()
+""")], 'detect'),
+    'rename-before-flush': ([(FU, """        try:
+            atomic_rename(self.part_path, self.dest_path,
+                          overwrite=self.overwrite)
+        except OSError:""", """        try:
+            pass
+        except OSError:"""), (FU, _EXIT_HEAD, """        if self.part_file and not exc_type:
+            atomic_rename(self.part_path, self.dest_path,
+                          overwrite=self.overwrite)
+        if self.part_file:
+            self.part_file.flush()
+            os.fsync(self.part_file.fileno())
+            self.part_file.close()
+""")], 'detect'),
+    'open-dest-directly': ([(FU, "        fd = os.open(self.part_path, self.open_flags, file_perms)",
+                             "        fd = os.open(self.dest_path if self.overwrite else self.part_path, (self.open_flags & ~os.O_EXCL) if self.overwrite else self.open_flags, file_perms)"),
+                            (FU, """        try:
+            atomic_rename(self.part_path, self.dest_path,
+                          overwrite=self.overwrite)
+        except OSError:""", """        try:
+            if not self.overwrite:
+                atomic_rename(self.part_path, self.dest_path,
+                              overwrite=self.overwrite)
+        except OSError:""")], 'detect'),
+    'unlink-dest-then-rename': ([(FU, """        if overwrite:
+            os.rename(src, dst)
+        else:
+            os.link(src, dst)
+            os.unlink(src)
+        return
+
+
+_atomic_rename""", """        if overwrite:
+            try:
+                os.unlink(dst)
+            except OSError:
+                pass
+            os.rename(src, dst)
+        else:
+            os.link(src, dst)
+            os.unlink(src)
+        return
+
+
+_atomic_rename""")], 'detect'),
+    'close-after-rename': ([(FU, _EXIT_HEAD, """        if self.part_file:
+            self.part_file.flush()
+            os.fsync(self.part_file.fileno())
+"""), (FU, """            raise  # could not save destination file
+        return""", """            raise  # could not save destination file
+        finally:
+            self.part_file.close()
+        return""")], 'benign'),
+    'fsync-only-large': ([(FU, _EXIT_HEAD, """        if self.part_file:
+            self.part_file.flush()
+            if self.part_file.tell() > 16:
+                os.fsync(self.part_file.fileno())
+            self.part_file.close()
+""")], 'detect'),
+    'fsync-skipped-when-dest-absent': ([(FU, _EXIT_HEAD, """        if self.part_file:
+            self.part_file.flush()
+            if self.overwrite:
+                os.fsync(self.part_file.fileno())
+            self.part_file.close()
+""")], 'detect'),
+    'link-path-copies': ([(FU, """            os.link(src, dst)
+            os.unlink(src)""", """            fd = os.open(dst, os.O_WRONLY | os.O_CREAT | os.O_EXCL, 0o666)
+            with os.fdopen(fd, 'wb') as out, open(src, 'rb') as inp:
+                out.write(inp.read())
+            os.unlink(src)""")], 'detect'),
+}
+
+MUTANTS['C05'] = {
+    'swallow-rename-error': ([(FU, """                except Exception:
+                    pass  # avoid masking original error
+            raise  # could not save destination file""", """                except Exception:
+                    pass  # avoid masking original error
+            return  # could not save destination file""")], 'detect'),
+    'skip-cleanup-on-body-exception': ([(FU, """        if exc_type:
+            if self.rm_part_on_exc:
+                try:
+                    os.unlink(self.part_path)
+                except Exception:
+                    pass  # avoid masking original error
+            return""", """        if exc_type:
+            return""")], 'detect'),
+    'ignore-rm_part_on_exc': ([(FU, """        if exc_type:
+            if self.rm_part_on_exc:
+                try:""", """        if exc_type:
+            if True:
+                try:""")], 'benign'),
+    'no-early-refusal-and-rename': ([(FU, """            if not self.overwrite:
+                raise OSError(errno.EEXIST,
+                              'Overwrite disabled and file already exists',
+                              self.dest_path)""", """            if not self.overwrite:
+                pass"""), (FU, """        else:
+            os.link(src, dst)
+            os.unlink(src)
+        return
+
+
+_atomic_rename""", """        else:
+            os.rename(src, dst)
+        return
+
+
+_atomic_rename""")], 'detect'),
+    'drop-O_EXCL': ([(FU, "_TEXT_OPENFLAGS = os.O_RDWR | os.O_CREAT | os.O_EXCL", "_TEXT_OPENFLAGS = os.O_RDWR | os.O_CREAT")], 'detect'),
+    'swap-permission-precedence': ([(FU, """        file_perms = self.file_perms
+        if file_perms is None:
+            try:""", """        file_perms = self.file_perms
+        if True:
+            try:""")], 'detect'),
+    'skip-chmod': ([(FU, "        if do_chmod:\n            try:\n                os.chmod(self.part_path, file_perms)", "        if do_chmod and self.file_perms is None:\n            try:\n                os.chmod(self.part_path, file_perms)")], 'detect'),
+    'unlink-dest-on-failure': ([(FU, """        if exc_type:
+            if self.rm_part_on_exc:
+                try:
+                    os.unlink(self.part_path)""", """        if exc_type:
+            if self.rm_part_on_exc:
+                try:
+                    if not self.overwrite:
+                        os.unlink(self.dest_path)
+                    os.unlink(self.part_path)""")], 'detect'),
+    'fsync-failure-no-cleanup': ([(FU, """                self.part_file.flush()
+                os.fsync(self.part_file.fileno())
+                self.part_file.close()
+            except Exception:""", """                self.part_file.flush()
+                try:
+                    os.fsync(self.part_file.fileno())
+                except OSError:
+                    self.part_file.close()
+                    raise
+                self.part_file.close()
+            except ValueError:""")], 'detect'),
+    'fsync-error-swallowed': ([(FU, "                os.fsync(self.part_file.fileno())\n                self.part_file.close()\n            except Exception:", "                try:\n                    os.fsync(self.part_file.fileno())\n                except OSError:\n                    pass\n                self.part_file.close()\n            except Exception:")], 'detect'),
+    'overwrite_part-always': ([(FU, "        if self.overwrite_part and os.path.lexists(self.part_path):", "        if os.path.lexists(self.part_path):")], 'detect'),
+    'cleanup-only-when-dest-absent': ([(FU, """        except OSError:
+            if self.rm_part_on_exc:
+                try:
+                    os.unlink(self.part_path)
+                except Exception:
+                    pass  # avoid masking original error
+            raise  # could not save destination file""", """        except OSError as e:
+            if self.rm_part_on_exc and e.errno != errno.EEXIST:
+                try:
+                    os.unlink(self.part_path)
+                except Exception:
+                    pass  # avoid masking original error
+            raise  # could not save destination file""")], 'detect'),
+    'umask-ignored': ([(FU, "                do_chmod = False  # respect the umask", "                do_chmod = True  # respect the umask")], 'detect'),
+}
